@@ -319,7 +319,7 @@ def run(tier):
     # a remembered absolute index is compared with the cursor's index, never with its column (a column agrees with the index on the first
     # line of a stream only: the same text would scan differently after an earlier document)
     from . import units
-    rep.floor("comparisons between cursor coordinates of known unit", units.check(rep, F), 3)
+    rep.floor("comparisons between cursor coordinates of known unit", units.check(rep, F), 1)
     return rep
 
 
